@@ -162,8 +162,18 @@ def window_verdict(lower: ast.AST, upper: ast.AST, C: str, bitsp: Optional[str])
 
 
 class CursorClass:
-    def __init__(self, eng, ci: ClassInfo):
-        self.eng, self.ci = eng, ci
+    def __init__(self, eng, ci: ClassInfo, reader: Optional[ClassInfo] = None):
+        """`reader`: the decode side's class when the buffer is split into a writer (ci) and a reader class; the two are
+        read as one class (methods united; both must keep their bytes and their bit cursor under the same attribute names)."""
+        self.eng = eng
+        self.quals = {ci.qual} | ({reader.qual} if reader is not None else set())
+        self.names = {ci.name} | ({reader.name} if reader is not None else set())
+        if reader is not None:
+            import dataclasses
+            merged = dict(reader.methods)
+            merged.update(ci.methods)
+            ci = dataclasses.replace(ci, methods=merged)
+        self.ci = ci
         self.store: Optional[str] = None
         self.cursor: Optional[str] = None
         init = ci.methods.get("__init__")
@@ -182,6 +192,12 @@ class CursorClass:
                     self.cursor = tgt.attr
         if self.store is None or self.cursor is None:
             raise AnalysisError("cannot identify store/cursor fields of %s" % ci.qual)
+        if reader is not None:
+            rinit = reader.methods.get("__init__")
+            rattrs = {t.attr for n in walk_local(rinit.node) if isinstance(n, (ast.Assign, ast.AnnAssign)) for t in (n.targets if isinstance(n, ast.Assign) else [n.target])
+                      if isinstance(t, ast.Attribute) and isinstance(t.value, ast.Name) and t.value.id == "self"} if rinit is not None else set()
+            if not {self.store, self.cursor} <= rattrs:
+                raise AnalysisError("writer class %s and reader class %s do not keep bytes and cursor under the same attribute names" % (ci.qual, reader.qual))
         self.S = "self.%s" % self.store
         self.C = "self.%s" % self.cursor
 
@@ -219,6 +235,13 @@ class CursorClass:
 
 def find_cursor_class(eng) -> CursorClass:
     prog, cg = eng.prog, eng.cg
+
+    def buffer_like(ci: ClassInfo) -> bool:
+        init = ci.methods.get("__init__")
+        if init is None:
+            return False
+        zero = any(isinstance(n, (ast.Assign, ast.AnnAssign)) and isinstance(n.value, ast.Constant) and n.value.value == 0 for n in walk_local(init.node))
+        return zero and ci.module.name.startswith("fcp.")
     found = {}
     for root in (ENC, DEC):
         f = prog.func(root)
@@ -226,21 +249,24 @@ def find_cursor_class(eng) -> CursorClass:
             if cs.how == "ctor":
                 for c in cs.callees:
                     cq = c.rsplit(".", 1)[0]
-                    if cq in prog.classes and prog.classes[cq].module.name == "fcp.serde":
+                    if cq in prog.classes and buffer_like(prog.classes[cq]) and not prog.is_subclass(cq, "fcp.specs.type.Type"):
                         found.setdefault(cq, set()).add(root)
         # or a module-level instance used by the entry point
         for n in ast.walk(f.node):
             if isinstance(n, ast.Name) and n.id in f.module.assigns and isinstance(f.module.assigns[n.id], ast.Call):
                 r = prog.resolve_expr_symbol(f.module, None, f.module.assigns[n.id].func)
-                if r and r[0] == "class" and prog.classes[r[1]].module.name == "fcp.serde":
+                if r and r[0] == "class" and buffer_like(prog.classes[r[1]]):
                     found.setdefault(r[1], set()).add(root)
     both = [q for q, rs in found.items() if rs == {ENC, DEC}]
-    if not both:
-        if found:
-            both = sorted(found)
-        else:
-            raise AnalysisError("anchor vanished: no cursor class used by fcp.serde.encode/decode")
-    return CursorClass(eng, prog.classes[sorted(both)[0]])
+    if both:
+        return CursorClass(eng, prog.classes[sorted(both)[0]])
+    w = sorted(q for q, rs in found.items() if rs == {ENC})
+    r = sorted(q for q, rs in found.items() if rs == {DEC})
+    if len(w) == 1 and len(r) == 1:
+        return CursorClass(eng, prog.classes[w[0]], prog.classes[r[0]])
+    if found:
+        return CursorClass(eng, prog.classes[sorted(found)[0]])
+    raise AnalysisError("anchor vanished: no cursor class used by fcp.serde.encode/decode")
 
 
 # ---------------------------------------------------------------- primitive recognition
@@ -542,7 +568,32 @@ class Prims:
             sub_used = any(bit_index_of(x) is not None and cc.C in norm(deep_resolve(m.node, x), 400) for x in ast.walk(m.node) if isinstance(x, ast.BinOp))
             sub_used = sub_used or any(isinstance(x, ast.Call) and dotted(x.func) == "divmod" and len(x.args) == 2 and isinstance(x.args[1], ast.Constant) and x.args[1].value == 8 and cc.C in norm(deep_resolve(m.node, x.args[0]), 400) for x in ast.walk(m.node))
             resets0 = any(isinstance(n, ast.Assign) and isinstance(n.value, ast.Constant) and n.value.value == 0 for n in cw)
+            def zero_growth(kind, n) -> bool:
+                """the store only grows by zero bytes: append(0) / extend([0] * k) / extend(bytes(k)) / += [0] * k"""
+                v = None
+                if kind in ("append", "extend") and isinstance(n, ast.Call) and len(n.args) == 1:
+                    v = n.args[0]
+                elif kind == "whole" and isinstance(n, ast.AugAssign) and isinstance(n.op, ast.Add):
+                    v = n.value
+                if v is None:
+                    return False
+                if kind == "append":
+                    return isinstance(v, ast.Constant) and v.value == 0
+                if isinstance(v, ast.BinOp) and isinstance(v.op, ast.Mult):
+                    for a in (v.left, v.right):
+                        if isinstance(a, ast.List) and len(a.elts) == 1 and isinstance(a.elts[0], ast.Constant) and a.elts[0].value == 0:
+                            return True
+                        if isinstance(a, ast.Constant) and a.value in (b"\x00", "\x00"):
+                            return True
+                if isinstance(v, ast.Call) and dotted(v.func) in ("bytes", "bytearray") and len(v.args) == 1 and isinstance(v.args[0], ast.Constant) and isinstance(v.args[0].value, int):
+                    return True
+                if isinstance(v, ast.List) and v.elts and all(isinstance(x, ast.Constant) and x.value == 0 for x in v.elts):
+                    return True
+                return False
             for kind, n in writes:
+                if zero_growth(kind, n):
+                    self.note("ok", "cursor", m, norm(n, 60), "the store grows by zero bytes only (no data written)")
+                    continue
                 if kind == "whole" and isinstance(n, ast.Assign) and resets0:
                     self.note("ok", "cursor", m, norm(n, 60), "whole-store reset together with cursor = 0")
                 elif is_word and sub_used:
@@ -628,16 +679,28 @@ def find_dispatcher(eng, root: str) -> Optional[FuncInfo]:
 def grammar_of(eng, prims: Prims, disp: FuncInfo, cls: str, side: str):
     """Effect list of dispatching type class `cls` through `disp`."""
     it = Interp(eng, "fcp.serde", prims.cc.ci.qual, prims.word_prims)
+    it.buf_classes = set(prims.cc.quals)
     it.dispatchers = {disp.qual}
     it.byte_prims = prims.byte_prims
     effects: List = []
     args = []
     for p in disp.params:
         ann = norm(p.annotation) if p.annotation is not None else ""
-        if p.arg in ("buffer",) or prims.cc.ci.name in ann:
+        if p.arg in ("buffer",) or any(nm in ann for nm in prims.cc.names):
             args.append(BufV(prims.cc.ci.qual))
         elif "FcpV2" in ann or p.arg == "fcp":
             args.append(FcpV())
+        elif ann and eng.prog.resolve_name(disp.module, disp, ann.strip("'\"")) and eng.prog.resolve_name(disp.module, disp, ann.strip("'\""))[0] == "class" \
+                and eng.prog.resolve_name(disp.module, disp, ann.strip("'\""))[1] in eng.prog.classes and eng.prog.classes[eng.prog.resolve_name(disp.module, disp, ann.strip("'\""))[1]].module is disp.module \
+                and not eng.prog.is_subclass(eng.prog.resolve_name(disp.module, disp, ann.strip("'\""))[1], "fcp.specs.type.Type"):
+            # a wrapper object of the codec module (e.g. a per-call view of the schema): constructed from the schema
+            q_ = eng.prog.resolve_name(disp.module, disp, ann.strip("'\""))[1]
+            init_ = eng.prog.classes[q_].methods.get("__init__")
+            iargs = []
+            for ip in (init_.params[1:] if init_ is not None else []):
+                ia = norm(ip.annotation) if ip.annotation is not None else ""
+                iargs.append(FcpV() if "FcpV2" in ia or ip.arg == "fcp" else DataV(ip.arg))
+            args.append(it.new_object(q_, iargs, {}, effects, 0))
         elif ann.endswith("Type") or p.arg == "type":
             args.append(TypeV(cls, None, "type"))
         else:
@@ -787,10 +850,16 @@ def canon_effects(effs: List, side: str) -> str:
             return "%s" % (w,)
         return str(w)
 
+    def only_raise(es) -> bool:
+        """a guard whose only effect is to raise transfers nothing: it is input validation, judged by R02.7 / C16, not a part of the wire grammar"""
+        return bool(es) and all(x[0] == "raise" or (x[0] == "if" and only_raise(x[2])) for x in es)
+
     def go(effs, acc):
         lens = {}  # enc: data src whose len was just written; dec: WordV objects
         for e in effs:
             k = e[0]
+            if k == "if" and only_raise(e[2]):
+                continue
             if k == "W":
                 w = width_txt(e[1])
                 role = e[2]
